@@ -93,4 +93,23 @@ CHECKS = {
          'the real implementation is reported as a violation.'),
    note=('Trusted: as C02. Known findings keyed rabin_blocks_env_deadend_plus_one '
          'and rabin_blocks_stale_hold in KNOWN_FINDINGS.txt. No axioms.')),
+ 'C12': dict(
+   design_ref='§6 C12',
+   technique='Coq invariant proof of a worklist model of _action_to_steps for any pick; verified checker evaluated in Coq on the graphs the real enumeration returns',
+   text=('Hand-written Gallina model of games/enumeration._action_to_steps '
+         'and the four _init_search variants, parametric in dd pick (only '
+         '"returns a member" assumed). Proved by invariants for every action '
+         'pair, pick and number of steps: nodes are distinct valuations, every '
+         'edge is allowed by both actions, each processed node has exactly '
+         'one out-edge per allowed next environment value and none for '
+         'others; initial nodes follow each qinit pattern. The boolean '
+         'checker of that statement is proved to characterise it and is '
+         'evaluated inside Coq on graphs produced by the REAL enumeration '
+         '(synthesized Streett implementations and hand-made actions, 4 '
+         'qinit, Moore/Mealy, both back ends). Termination bound and the '
+         'inherited liveness of paths are not proved.'),
+   note=('Trusted: Coq kernel+vm_compute; hand model tied by checking real '
+         'outputs with the verified checker (sample); domain restriction: '
+         'environment action independent of y\' (inputs the library rejects '
+         'by its own assertion are counted as rejected). No axioms.')),
 }
